@@ -1362,6 +1362,7 @@ def renamed_domain(mapping, newnames, name=''):
        ...
     ValueError: no domain coordinate named l
     """
+    newnames = dict(newnames) # do not modify the caller's dictionary
     for key in list(newnames):
         if type(key) == int:
             newnames[mapping.function_domain.coord_names[key]] = \
@@ -1426,6 +1427,7 @@ def renamed_range(mapping, newnames):
        ...
     ValueError: no range coordinate named w
     """
+    newnames = dict(newnames) # do not modify the caller's dictionary
     for key in list(newnames):
         if type(key) == int:
             newnames[mapping.function_range.coord_names[key]] = \
